@@ -13,6 +13,17 @@ import (
 
 func pathClean(p string) string { return path.Clean(p) }
 
+// isGoodFile: one of the agent's own work products (never a directory, a link
+// or something outside the project).
+func isGoodFile(clean string) bool {
+	for _, f := range goodFiles {
+		if f == clean {
+			return true
+		}
+	}
+	return false
+}
+
 type Gen struct {
 	R           *SplitMix
 	W           map[string]int // weights by command family
@@ -258,7 +269,7 @@ func (g *Gen) next(m *Model) Step {
 	// same task, possibly with another summary, then often a compaction
 	if g.lastRes != nil && g.RepeatPct > 0 {
 		if g.R.Intn(100) < g.RepeatPct {
-			if g.lastRes.RPath != nil && !g.rewrote && g.R.Chance(1, 3) {
+			if g.lastRes.RPath != nil && !g.rewrote && isGoodFile(pathClean(*g.lastRes.RPath)) && g.R.Chance(1, 3) {
 				// the attached file changes (same length or not) while its mtime
 				// stays; the next attachment must hash the new content
 				g.rewrote = true
